@@ -14,7 +14,7 @@ LEVEL_TEXT = (
     "(the structural half of the prolongation clause)."
 )
 LEVEL_NOTE = "Not decided: the P1/RWG dof-map loops on arbitrary meshes (program verification), prolongation equality up to quadrature error (numerical)."
-EXPLANATION = "rules ASM-REGULAR (scatter, 6 assemblers), SING-SCATTER, SING-SUPPORT, SING-LAYOUT, SPARSE-ROLES/SCATTER, SPACE-MAPS, LAUNCH-ROLES, REFINE-CHILDREN"
+EXPLANATION = "rules ASM-REGULAR (scatter, 6 assemblers), SING-SCATTER, SING-SUPPORT, SING-LAYOUT, SPARSE-ROLES/SCATTER, SPACE-MAPS, LAUNCH-ROLES, REFINE-CHILDREN, IDX-ELEM-BY-POSITION, DOF-BY-ENTITY"
 ASSUMPTIONS = ["local2global / local_multipliers tables describe T (C09)", "np.add.at and COO assembly accumulate duplicates"]
 
 
@@ -32,3 +32,9 @@ def run(ctx):
     c11.children_rule(ctx, r, "refine", kids, pts, bary.GRID, "Grid.refine", ln, 4)
     B, bln = bary.barycentric_table(ctx)
     c11.children_rule(ctx, r, "barycentric", B, pts, bary.GRID, "_create_barycentric_connectivity_array", bln, 6)
+    # subspaces live on subsets of the elements: tables numbered by element must never be read by position, and the
+    # dof maps of the continuous spaces must number by mesh entity (the same dof on a segment and on the whole grid)
+    from .. import gridfun
+
+    gridfun.repo_lints(ctx)
+    spaces.dof_by_entity(ctx)
